@@ -61,6 +61,8 @@ def graphs(draw, max_edges=8, features=None):
                 e['depfile_layout'] = draw(st.integers(0, 3))
                 # how the "compiler" spells each hidden read in its depfile: canonical, or as -Iinc/.. style paths do
                 e['spell'] = draw(st.integers(0, 3))
+                if e['deps'] != 'msvc' and f.get('depfile_dirs', True) and draw(st.integers(0, 3)) == 3:
+                    e['dfdir'] = "dep%d/" % (ei % 2)      # depfile in a directory that holds no output
                 # a generated hidden read normally has an order-only manifest path to its producer (the
                 # documented practice); sometimes it has none at all (the D2 / missingdeps shape)
                 for h in e['hidden']:
@@ -230,7 +232,7 @@ def manifest(g):
             if e['generator']:
                 L.append("  generator = 1\n")
             if e['deps'] in ('gcc', 'depfile'):
-                L.append("  depfile = %s.d\n" % key(e))
+                L.append("  depfile = %s\n" % models.depfile_path(e))
             if e['deps'] in ('gcc', 'msvc'):
                 L.append("  deps = %s\n" % e['deps'])
             if e.get('pool'):
@@ -255,7 +257,7 @@ def real_args(g, e):
     if e.get('deps') == 'msvc':
         a.append("--msvc")
     if e.get('deps') in ('gcc', 'depfile'):
-        a += ["--depfile", key(e) + ".d", "--layout", str(e.get('depfile_layout', 0))]
+        a += ["--depfile", models.depfile_path(e), "--layout", str(e.get('depfile_layout', 0))]
     if e.get('rsp') is not None:
         a += ["--rsp", key(e) + ".rsp"]
     for o, ov in (e.get('content_override') or {}).items():
@@ -308,7 +310,7 @@ def real_manifest(g, vtool):
             if e['generator']:
                 L.append("  generator = 1\n")
             if e['deps'] in ('gcc', 'depfile'):
-                L.append("  depfile = %s.d\n" % key(e))
+                L.append("  depfile = %s\n" % models.depfile_path(e))
             if e['deps'] in ('gcc', 'msvc'):
                 L.append("  deps = %s\n" % e['deps'])
             if e.get('pool'):
